@@ -37,6 +37,14 @@ def handle : List String → Option String
     match implicitRow d with
     | none => some "nonfinite"
     | some r => some s!"ok {showRat r}"
+  | ["implicitvec", rq, rs] => do
+    -- `evaluate_fitness_vector` with `required_params` = `rq` (`none` or a number); rows separated by `|`
+    let req : Option Nat ← if rq = "none" then some none else (rq.toNat?).map some
+    let rows ← (rs.splitOn "|").mapM fun row => (words row).mapM rat?
+    let show1 : Option Rat → String := fun o => match o with
+      | none => "nonfinite"
+      | some r => showRat r
+    some ("ok " ++ " ".intercalate ((implicitVector req rows).map show1))
   | _ => none
 
 end Drv.OpsSavGol
